@@ -69,13 +69,16 @@ class CalendarMonitor(object):
                         raise
                 finally:
                     mon.depth -= 1
-                exp = mon.expect(unit, op, a)
-                if exp is NotImplemented:
-                    mon.out_of_scope += 1
-                    return r
-                mon._count(unit, op)
-                if not mon.agree(unit, op, a, r, exp):
-                    mon._viol(unit, op, a, r, exp)
+                try:
+                    exp = mon.expect(unit, op, a)
+                    if exp is NotImplemented:
+                        mon.out_of_scope += 1
+                        return r
+                    mon._count(unit, op)
+                    if not mon.agree(unit, op, a, r, exp):
+                        mon._viol(unit, op, a, r, exp)
+                except Exception:  # the oracle must never disturb the library
+                    mon.oracle_errors = getattr(mon, "oracle_errors", 0) + 1
                 return r
 
             return on_call
